@@ -71,7 +71,7 @@ type Snapshot struct {
 	ReqStates  map[int]string
 	RespStates map[int]string
 	ReqActive, ReqPending, RespActive, RespPending []int
-	RunningReq, RunningResp                       int // gated/instrumented count of executions in progress
+	HeldReq, HeldResp                             int // executions the harness itself is holding inside a gate right now (independent of what the node reports)
 }
 
 // Event is an entry of the ordered log the judges reason over.
@@ -129,17 +129,20 @@ func RootOf(b *dagen.Built, r int) cid.Cid {
 }
 
 type gate struct {
-	at   int
-	n    int
-	open bool
-	ch   chan struct{}
+	at      int
+	n       int
+	open    bool
+	waiting bool
+	ch      chan struct{}
 }
 
 func newGate(at int) *gate { return &gate{at: at, ch: make(chan struct{})} }
 func (g *gate) pass() {
 	g.n++
 	if g.at > 0 && g.n == g.at && !g.open {
+		g.waiting = true
 		<-g.ch
+		g.waiting = false
 	}
 }
 func (g *gate) release() {
@@ -494,6 +497,14 @@ func RunWith(t *testing.T, c Case, st *Stores) *Result {
 				ReqStates: states(qp.RequestStates), RespStates: states(sp.RequestStates),
 				ReqActive: ids(qp.TaskQueueState.Active), ReqPending: ids(qp.TaskQueueState.Pending),
 				RespActive: ids(sp.TaskQueueState.Active), RespPending: ids(sp.TaskQueueState.Pending)}
+			for i := range c.Reqs {
+				if qgates[i].waiting || wgates[i].waiting {
+					s.HeldReq++
+				}
+				if sgates[i].waiting {
+					s.HeldResp++
+				}
+			}
 			res.Snapshots = append(res.Snapshots, s)
 			if n := len(s.ReqActive); n > res.MaxRunReq {
 				res.MaxRunReq = n
